@@ -340,6 +340,17 @@ func (r Relation) Format(f fmt.State, verb rune) {
 	fu.WriteString(f, "{")
 
 	attrs := r.attrs.GetSorted()
+	for _, attr := range attrs {
+		if !identRE.MatchString(attr) {
+			// A relation literal's heading can only hold identifiers; spell out the tuples.
+			for i, e := 0, OrderedValueEnumerator(r.Enumerator(), ValueLess); e.MoveNext(); i++ {
+				writeSep(f, i, ", ")
+				fu.FRepr(f, e.Current())
+			}
+			fu.WriteString(f, "}")
+			return
+		}
+	}
 	fu.Fprintf(f, "|%s| ", strings.Join(attrs, ", "))
 	projection := r.projectionBasedOnNames(attrs)
 	notFirst := false
